@@ -37,7 +37,11 @@ def main(src):
             tests += re.findall(r'^func (Test\w+)\(', txt, re.M)
         rx = '^(' + '|'.join(tests) + ')$'
         pk = ' '.join('./' + d if d != '.' else '.' for d in sorted(dirs))
-        cmd = f"go test -mod=mod -vet=off -count=1 -timeout 10m -run '{rx}' {pk}"
+        race = ''
+        dc = os.path.join(src, 'DEMO_CMD.txt')
+        if os.path.exists(dc) and '-race' in open(dc).read():
+            race = '-race '
+        cmd = f"go test -mod=mod -vet=off -count=1 -timeout 10m {race}-run '{rx}' {pk}"
         res['demo_cmd'] = cmd
         rc, out = run(cmd, wt)
         res['demo_fails_with_patch'] = rc != 0
